@@ -20,3 +20,13 @@ def analyze(patterns, limit=4000):
     if r.returncode != 0:
         raise CheckerError("rxtab failed: %s" % r.stderr[-400:])
     return json.loads(r.stdout)["results"]
+
+
+def shadow(patterns, window=1000):
+    """for each row j: index of an earlier row that finds a match in every line row j matches (else None)"""
+    _ = analyze([])  # make sure the binary exists
+    inp = json.dumps({"shadow": patterns, "window": window})
+    r = subprocess.run([BIN], input=inp, stdout=subprocess.PIPE, stderr=subprocess.PIPE, text=True)
+    if r.returncode != 0:
+        raise CheckerError("rxtab shadow failed: %s" % r.stderr[-400:])
+    return json.loads(r.stdout)
